@@ -1213,6 +1213,9 @@ class Command:
             args = list(args)
         if prog_name is None:
             prog_name = os.path.basename(sys.argv[0]) if sys.argv and sys.argv[0] else self.name
+            main_mod = sys.modules.get("__main__")
+            if prog_name == "__main__.py" and getattr(main_mod, "__package__", None):
+                prog_name = f"python -m {main_mod.__package__}"
         try:
             try:
                 with self.make_context(prog_name, args, **extra) as ctx:
